@@ -293,6 +293,11 @@ class Check(BaseCheck):
             ("compute_rotated_f", lambda m: diffgeo.compute_rotated_f(m, rngf), "tri"),
             ("tria_mean_curvature_flow", lambda m: diffgeo.tria_mean_curvature_flow(m, max_iter=2), "tri"),
             ("heat.diffusion", lambda m: heat.diffusion(m, [0, 3], m=1.0), "tri"),
+            ("Solver aniso (oriented mesh)", lambda m: Solver(m, aniso=(2.0, 1.0), aniso_smooth=2), "tri"),
+            ("Solver aniso (inconsistently oriented mesh)", lambda m: Solver(m, aniso=2.0, aniso_smooth=2), "tri-mixed"),
+            ("heat.diffusion aniso (inconsistently oriented mesh)", lambda m: heat.diffusion(m, [0, 3], m=1.0, aniso=1.0), "tri-mixed"),
+            ("Solver (inconsistently oriented mesh)", lambda m: Solver(m, lump=True).eigs(3), "tri-mixed"),
+            ("normalize_ev volume (inconsistently oriented mesh)", lambda m: shapedna.normalize_ev(m, np.array([1.0, 2.0]), "volume"), "tri-mixed"),
             ("TetMesh queries", lambda m: [m.is_oriented(), m.avg_edge_length(), m.boundary_tria(), m.has_free_vertices()], "tet"),
             ("normalize_ev tet volume", lambda m: shapedna.normalize_ev(m, np.array([1.0, 2.0]), "volume"), "tet"),
             ("Solver tet", lambda m: Solver(m).eigs(3), "tet"),
@@ -300,7 +305,8 @@ class Check(BaseCheck):
         ]
         for name, fn, kind in calls:
             with core.quiet():
-                m = TriaMesh(v, t) if kind == "tri" else TetMesh(tv, tt)
+                tmix = t.copy(); tmix[::3] = tmix[::3][:, [0, 2, 1]]
+                m = TriaMesh(v, t) if kind == "tri" else (TriaMesh(v, tmix) if kind == "tri-mixed" else TetMesh(tv, tt))
             v0, t0 = np.array(m.v, copy=True), np.array(m.t, copy=True)
             try:
                 with core.quiet():
